@@ -4,7 +4,7 @@ from checks_c10 import prove_run, sched_violations
 PROPERTY = "C04"
 
 
-def poseidon_row_violations(ctx):
+def poseidon_row_violations(ctx, keep=None):
     """Non-primitive rows (C04: "every non-primitive row is the true function of its inputs"): the row-level tamper oracle of
     the C11 harness on the real Poseidon2 / Poseidon1 circuit AIRs (honest chains, single-cell / chain-structure tampering, judged by
     an independent relation decoder). Only rows the real AIR *accepts* although the relation fails are C04 violations."""
@@ -20,7 +20,7 @@ def poseidon_row_violations(ctx):
     rep = json.load(open(f"{out}/poseidonctl.report.json"))
     seen, vs = {}, []
     for v in rep["violations"]:
-        if not v["class"].startswith("accepts-invalid-row:poseidon"):
+        if not v["class"].startswith("accepts-invalid-row:poseidon") or (keep is not None and not keep(v["class"])):
             continue
         seen[v["class"]] = seen.get(v["class"], 0) + 1
         if seen[v["class"]] <= 3:
